@@ -14,7 +14,7 @@ NASTY_TEXT = ["it's", 'say "hi"', 'back\\slash', '`tick`', '{brace}', 'a\n\n  b'
 ACTIONS = ['cascade', 'restrict', 'set null', 'set default', 'no action', 'CASCADE']
 INDEX_TYPES = ['btree', 'hash', 'gin', 'gist', 'brin', 'spgist']
 COLORS = ['#fff', '#AbCdEf', '#123456']
-FLOATS = ['1.5', '0.0', '10.25', '3.0', '0.001', '123456.789']
+FLOATS = ['1.5', '0.0', '10.25', '3.0', '0.001', '123456.789', '2.5e-16', '6.62607015e-34', '1e-05', '1e+16', '1.2345678e-10']
 
 
 class G:
@@ -143,7 +143,7 @@ def gen_database(r, nasty=0.0, size=None, allow_props=None, renderers=(0, 1), db
         info['columns'][t] = cols
         # indexes
         idxs = []
-        for _ in range(r.choice([0, 0, 1, 1, 2])):
+        for _ in range(r.choice([0, 0, 1, 1, 2, 3, 4])):
             nsub = r.choice([1, 1, 2, 3])
             subs = []
             for _ in range(nsub):
@@ -241,7 +241,7 @@ def gen_edits(g, info, n, sql_benign=False):
     for _ in range(n):
         kind = r.choice(['tname', 'tschema', 'talias', 'cname', 'ctype', 'cflag', 'cflag', 'cdefault', 'cnote', 'tnote', 'ename',
                          'rtype', 'rinline', 'rname', 'raction', 'addcol', 'addidx', 'delidx', 'additem', 'tcomment',
-                         'eschema', 'ccomment', 'rcomment', 'gname', 'allow'])
+                         'eschema', 'ccomment', 'rcomment', 'gname', 'allow', 'rseq', 'rseq'])
         t = r.choice(tabs)
         cols = info['columns'][t]
         if kind == 'tname':
@@ -271,6 +271,15 @@ def gen_edits(g, info, n, sql_benign=False):
             g.emit(Op(60, r.choice(info['enums']), 1, vs(g.ident(['renamed_enum', 're named']))))
         elif kind == 'eschema' and info['enums']:
             g.emit(Op(60, r.choice(info['enums']), 2, vs(r.choice(SCHEMAS))))
+        elif kind == 'rseq' and info['refs']:
+            # kind and inline-ness of ONE reference edited several times in a row: the result may depend on the final
+            # values only, not on the order in which they were assigned or on the values passed through
+            rf = r.choice(info['refs'])
+            for _ in range(r.choice([2, 3, 3, 4])):
+                if r.random() < 0.5:
+                    g.emit(Op(60, rf, 1, vs(r.choice(['>', '<', '-', '<>', '<>']))))
+                else:
+                    g.emit(Op(60, rf, 8, V('bool', r.random() < 0.6)))
         elif kind == 'rtype' and info['refs']:
             g.emit(Op(60, r.choice(info['refs']), 1, vs(r.choice(['>', '<', '-', '<>']))))
         elif kind == 'rinline' and info['refs']:
